@@ -93,7 +93,8 @@ class H3Ops:
                 return None
             else:
                 # get the kth ring
-                ring = h3.k_ring(search_geoid, current_k)
+                # sorted: h3.k_ring returns a set and the first of equally distant entities wins
+                ring = sorted(h3.k_ring(search_geoid, current_k))
 
                 # get all entities in this ring
                 found = (
